@@ -1,7 +1,7 @@
 """Core family: histories of add/rm/disconnect/rename over catalogues, replayed
 into the real gfapy with the full projection after every call, validated by
 TLC against spec/TraceGfa.tla (which uses Gfa!Step)."""
-import json, os, random, signal, sys, time, itertools, hashlib
+import hashlib, json, os, random, signal, sys, time, itertools
 from multiprocessing import Pool as MPool
 
 from . import project
@@ -415,6 +415,7 @@ def replay_one(job):
         res = "ok"
         exc = ""
         qsame, qdiff = 1, []
+        adig = ""
         signal.setitimer(signal.ITIMER_VIRTUAL, 5.0)
         mutating = op["k"] not in ("query", "unused", "validate")
         try:
@@ -436,6 +437,7 @@ def replay_one(job):
                     other = a2 if a1 != a2 else prev
                     qdiff = [x for x, y in zip(a1, other) if x != y][:3] or ["length"]
                 answers[op["id"]] = a1
+                adig = hashlib.md5("\n".join(a1).encode("utf-8", "replace")).hexdigest()
                 foreign = [x for x in a1 if "=!!" in x]
                 if foreign:
                     res, exc = "FOREIGN", ";".join(foreign[:4])
@@ -469,7 +471,7 @@ def replay_one(job):
         ls = [pool.add(abstract_input(t)) for t in op.get("texts", [])]
         obs = project.observe(gfa, pool, universe)
         evs.append({"op": {"k": op["k"], "l": lidx, "id": op["id"], "id2": op["id2"], "ls": ls, "n": op.get("n", 0)},
-                    "res": res, "exc": exc, "obs": obs, "qsame": qsame, "qdiff": qdiff})
+                    "res": res, "exc": exc, "obs": obs, "qsame": qsame, "qdiff": qdiff, "adig": adig})
         if "broken" in obs:
             break
     return {"id": job["id"], "kind": job["kind"], "cfg": cfg, "init": init, "ev": evs,
@@ -580,7 +582,7 @@ def slim(t):
     """what is kept of a trace after validation: no observations"""
     return {"id": t["id"], "kind": t["kind"], "cfg": t["cfg"], "src": t["src"], "n": len(t["ev"]),
             "ev": [{"op": {"k": e["op"]["k"], "id": e["op"]["id"]}, "res": e["res"], "exc": e["exc"],
-                    "qdiff": e.get("qdiff"), "dig": (e["obs"].get("dig") if isinstance(e["obs"], dict) else None)}
+                    "qdiff": e.get("qdiff"), "adig": e.get("adig", ""), "dig": (e["obs"].get("dig") if isinstance(e["obs"], dict) else None)}
                    for e in t["ev"]]}
 
 
@@ -721,6 +723,42 @@ def doc_jobs(catname, n, nmut, seed, vlevel=1, kind="doc", cfgversion=None):
     return jobs
 
 
+def rename_jobs(catname, n, seed, vlevel=1, kind="renall"):
+    """a document (any arrival order, so that multi-line groups are merged before and after the
+    groups that list them), then EVERY identified line renamed to a fresh identifier, one after the
+    other, some renamed back: the identifier changes everywhere it is written and nothing else does"""
+    cat = CATALOGUES[catname]
+    rnd = random.Random(seed)
+    adds = [text_of(l) for l in cat["lines"]]
+    A = lambda t: dict(k="add", text=t, id="", id2="")
+    fresh = ["r%d" % i for i in range(1, 9)]
+    jobs = []
+    for i in range(n):
+        doc = rnd.sample(adds, rnd.randint(3, min(len(adds), 10)))
+        names = []
+        for t in doc:
+            f = t.split("\t")
+            nm = None
+            if f[0] in "SPEGOU" and len(f) > 1 and f[1] != "*":
+                nm = f[1]
+            elif f[0] in "LC":
+                ids = [x[5:] for x in f if x.startswith("ID:Z:")]
+                nm = ids[0] if ids else None
+            if nm and nm not in names:
+                names.append(nm)
+        rnd.shuffle(names)
+        h = [A(t) for t in doc]
+        for k, nm in enumerate(names[:len(fresh)]):
+            h.append(dict(k="ren", text="", id=nm, id2=fresh[k], n=0))
+            if rnd.random() < 0.25:
+                h.append(dict(k="ren", text="", id=fresh[k], id2=nm, n=0))
+            if rnd.random() < 0.2:
+                h.append(A(rnd.choice(adds)))
+        jobs.append(dict(id="%s-%s-%d" % (kind, catname, i), kind=kind, cfg=dict(version=cat["version"], vlevel=vlevel),
+                         ops=h, universe=sorted(set(universe_of(cat)) | set(fresh))))
+    return jobs
+
+
 def clone_jobs(catname, n, nmut, seed, vlevel=1, kind="clone"):
     """a document, a clone of one of its lines added under another identifier, then tag edits and
     deletions on the clone and on the original in turn (AddClone of spec/Gfa.tla: the two lines
@@ -773,7 +811,7 @@ EDIT_VALUES = {
 }
 
 
-def edit_jobs(catname, n, nmut, seed, vlevel=1, kind="edit"):
+def edit_jobs(catname, n, nmut, seed, vlevel=1, kind="edit", complete=False):
     """a document, then chained edits of positional fields of its (connected) lines - the next edit of a
     line starts from what the previous one left - mixed with removals of the edited lines and of the
     segments they depend on (SetField of spec/Gfa.tla)"""
@@ -781,18 +819,25 @@ def edit_jobs(catname, n, nmut, seed, vlevel=1, kind="edit"):
     ver = cat["version"]
     rnd = random.Random(seed)
     adds = [text_of(l) for l in cat["lines"] if l[0] in "SLCPEGFOU"]
+    seglen = {l.split("|")[1]: int(l.split("|")[2]) for l in cat["lines"]
+              if l.startswith("S|") and ver == "gfa2" and l.split("|")[2].isdigit()}
     universe = sorted(set(cat["ids"]))
     A = lambda t: dict(k="add", text=t, id="", id2="")
     jobs = []
     for i in range(n):
         doc = rnd.sample(adds, rnd.randint(3, min(len(adds), 10)))
+        if complete:     # every segment is defined: no placeholders, the topology answers are specified
+            segs = [t for t in adds if t.startswith("S\t")]
+            seen = set()
+            segs = [t for t in segs if not (t.split("\t")[1] in seen or seen.add(t.split("\t")[1]))]
+            doc = segs + [t for t in doc if not t.startswith("S\t")]
         cur = list(doc)
         h = [A(t) for t in doc]
         for _ in range(nmut):
             c = rnd.random()
             t = rnd.choice(cur)
             f = t.split("\t")
-            if c < 0.65:
+            if c < (0.45 if complete else 0.65):
                 npos = {"S": 2 if ver == "gfa1" else 3, "L": 5, "C": 6, "P": 3, "E": 8, "G": 5, "F": 7, "O": 2, "U": 2}[f[0]]
                 pos = rnd.randint(2 if f[0] in "SPEGOU" else 1, npos)
                 vals = EDIT_VALUES.get((f[0], ver, pos)) or EDIT_VALUES.get((f[0], None, pos))
@@ -812,7 +857,14 @@ def edit_jobs(catname, n, nmut, seed, vlevel=1, kind="edit"):
                 # edited then) and added again
                 npos = {"L": 5, "C": 6, "E": 8, "G": 5, "F": 7}[f[0]]
                 new = list(f)
-                for _k in range(rnd.randint(1, 2)):
+                if f[0] == "E" and rnd.random() < 0.5:
+                    # the two intervals exchange their kinds (suffix <-> prefix): sid1 and sid2 swap the
+                    # roles of "from" and "to" segment
+                    L1, L2 = seglen.get(f[2][:-1], 3), seglen.get(f[3][:-1], 3)
+                    pre = lambda L: ["0", "%d%s" % (min(2, L), "$" if min(2, L) == L else "")]
+                    suf = lambda L: [str(max(0, L - 2)), "%d$" % L]
+                    new[4:8] = (pre(L1) + suf(L2)) if f[5].endswith("$") else (suf(L1) + pre(L2))
+                for _k in range(rnd.randint(0 if new != f else 1, 2)):
                     pos = rnd.randint(2 if f[0] in "EG" else 1, npos)
                     vals = EDIT_VALUES.get((f[0], ver, pos)) or EDIT_VALUES.get((f[0], None, pos))
                     if vals:
@@ -837,6 +889,7 @@ def edit_jobs(catname, n, nmut, seed, vlevel=1, kind="edit"):
 
 CLAUSE_PROP = {
     "foreign": "C07", "stutter": "C08", "query-changed": "C10", "query-unrepeatable": "C10", "stutter.query": "C08",
+    "query-history": "C10",
     "res.notunique": "C09", "names": "C09", "lookup": "C09", "fresh": "C09",
     "res.version": "C13", "version": "C13",
     "externals": "C05", "lines": "C05", "res.refused": "C05", "res.accepted": "C05", "hdr": "C05",
@@ -989,6 +1042,26 @@ def perm_jobs(seqs, ops, catname, cfgversion="none", vlevel=1, tag=""):
                          ops=[ops[i] for i in h] + [dict(k="flush", text="", id="", id2="")],
                          universe=universe, doc=[catname] + sorted(h), strict=strict))
     return jobs
+
+
+def validate_equal_groups(groups, name, clause="order"):
+    """groups: [{"id", "digs": [...], "res": [...]}]; TLC (TracePerm) requires equal digests."""
+    groups = [g for g in groups if len(g["digs"]) > 1]
+    if not groups:
+        return [], 0
+    wd = workdir(name)
+    f = os.path.join(wd, "groups.json")
+    with open(f, "w") as fh:
+        json.dump(groups, fh)
+    rc, out = run_tlc("TracePerm", TRACE_CFG, wd, env={"TRACE_FILE": f}, workers=1)
+    st = stats(out)
+    if rc != 0 or st is None or st[1] != 2 * len(groups):
+        raise MachineryError("TracePerm failed:\n" + "\n".join(out.splitlines()[-20:]))
+    rej = []
+    for raw in parse_tuples(out, "REJECT"):
+        v = tla_value(raw)
+        rej.append((v[1], v[2], [clause], v[4]))
+    return rej, len(groups)
 
 
 def validate_perm_groups(traces, jobs, name):
